@@ -279,9 +279,10 @@ def run(ctx):
     # d: the value the divergence test looks at is the generalised degree of divergence of the statement
     ctx.rule("C05-d", "the tested/stored value is [i≠∅]·(Σ_{e∈i} w_e − ℓ(i)·D/2 − [spanning(i)]·dod) + [i=∅]·1 with spanning(·) the conjunction of the statement "
                       "(kernel engine; graph routines abstracted)")
-    from .kernels import gdod_clause, run_c03_flags, guarded_clause
+    from .kernels import gdod_clause, run_c03_flags, run_c03_loops, guarded_clause
     guarded_clause(ctx, "C05-d", site[2].path, "generalized-dod", lambda: gdod_clause(ctx, "C05-d", site[2]))
     run_c03_flags(ctx, "C05-d")
+    run_c03_loops(ctx, "C05-d")
     if ctx.cfg == "default":
         from ..fixtures import detectors_alive
         ctx.rule("C05-z", "positive examples: ambient-callee and hash-order detectors fire on fixtures/")
